@@ -320,6 +320,24 @@ def key_rdkit(repo, tier="quick"):
                               reason="each node gets the position of its own atom")) if same_atom else
              obs.append(ob_fail(oid, fi, call, construct="conf.GetAtomPosition(%s)" % (show(k) if k else ""), instance="conformer",
                                 reason="the position is not looked up by the index of the atom the node is created for")))
+    # (4) RDKit atom i is the i-th node in the iteration order of the graph: the atom loop of networkx_to_rdkit and the
+    #     index -> node list of embed_3d_via_rdkit must both follow plain graph order (no sorted / reversed / set)
+    fw = repo.function("rdkit:networkx_to_rdkit")
+    wfl = fw.flow
+    g = ("param", fw.positional_params[0])
+    for nd in fw.cfg.nodes:
+        if nd.kind == "for" and any(isinstance(x, ast.Call) and isinstance(x.func, ast.Attribute) and x.func.attr == "AddAtom" for st2 in nd.ast.body for x in ast.walk(st2)):
+            it = wfl.canon(nd.ast.iter, nd.id)
+            c = is_call(it, "list", "tuple", "iter", "enumerate")
+            inner = c[0][0] if c and it[2][0] == "builtin" else it
+            mm = method_call(inner, "nodes")
+            plain = inner in (("attr", g, "nodes"), g) or (mm is not None and mm[0] == g)
+            n_sites += 1
+            (obs.append(ob_ok(oid, fw, nd.ast, construct="atoms are added in the iteration order of graph.nodes", instance="atom-order",
+                              reason="RDKit atom i is the i-th node of the graph, which is what embed_3d_via_rdkit relies on when writing positions back")) if plain else
+             obs.append(ob_fail(oid, fw, nd.ast, construct="atoms are added in the order of %s" % show(it), instance="atom-order",
+                                reason="RDKit atom indices no longer follow the iteration order of graph.nodes, but positions are written back by that order: "
+                                       "coordinates land on the wrong atoms")))
     if n_sites < 5:
         raise AnalysisError("key-space scan matched only %d sites in rdkit.py / coordinates.py (floor 5)" % n_sites)
     return obs
